@@ -58,6 +58,9 @@ class Cls:
         return f"<Cls {self.qname}>"
 
 
+from .normalize import normalize  # noqa: E402
+
+
 class Module:
     def __init__(self, name, path, tree, source):
         self.name = name
@@ -107,6 +110,7 @@ class Model:
                     tree = ast.parse(source, filename=path)
                 except SyntaxError as e:
                     raise AnalysisError(f"cannot parse {path}: {e}")
+                normalize(tree)
                 m = Module(rel, path, tree, source)
                 _annotate(tree, m.rel)
                 self.modules[rel] = m
